@@ -239,3 +239,47 @@ def run(chk):
     from . import c14
     c14.rule_prefix_algebra(chk, "C08.9")
     c14.rule_last_mount_wins(chk, "C08.10")
+    rule_recipes_file_key(chk, "C08.11")
+
+
+def rule_recipes_file_key(chk, rid):
+    """The key of the recipes file recorded in each declared recipe (`recipes_key`, and through it `recipe_name`) is the key of the file
+    being read: the variable of the loop over the sub-store's keys, read where no inner re-binding of that name can reach."""
+    repo = chk.repo
+    chk.rule(rid, "update_recipes records the key of the recipes file being read: the argument of to_root_key in `d['recipes_key']` / "
+                  "`d['recipe_name']` is reached only by the binding of the loop over substore.keys() (directly or through a copy taken "
+                  "before the per-recipe loops), never by a name re-bound inside them")
+    m = repo.module(RC)
+    fn = repo.func(RC, "NewRecipeSpecStore.update_recipes")
+    cfg = CFG(fn)
+    C = f"{RC}.NewRecipeSpecStore.update_recipes"
+    outer = [n for n in cfg.nodes if n.kind == "for" and "substore.keys()" in U(n.ast.iter)]
+    if len(outer) != 1:
+        raise AnalysisError("update_recipes: loop over substore.keys() not found")
+    ov = U(outer[0].ast.target)
+    sites = []
+    for n in cfg.nodes:
+        if n.kind == "stmt" and isinstance(n.ast, ast.Assign) and U(n.ast.targets[0]).replace('"', "'") in ("d['recipes_key']", "d['recipe_name']"):
+            for c in ast.walk(n.ast.value):
+                if isinstance(c, ast.Call) and call_name(c) == "self.to_root_key" and c.args:
+                    sites.append((n, c.args[0]))
+    chk.floor(rid, len(sites), 1, "to_root_key(<recipes file key>) sites")
+
+    def only_outer(name, at, depth=2):
+        ds = cfg.reaching_defs(name, at)
+        if not ds or cfg.entry in ds:
+            return False
+        for d in ds:
+            if d == outer[0].id and name == ov:
+                continue
+            v = assigned_value(cfg, d, name)
+            if depth > 0 and isinstance(v, ast.Name) and only_outer(v.id, d, depth - 1):
+                continue
+            return False
+        return True
+
+    for n, a in sites:
+        ok = isinstance(a, ast.Name) and only_outer(a.id, n.id)
+        chk.ob(rid, C, ok, f"`{U(n.ast.targets[0])}` is built from `{U(a)}`, bound only by the loop over the recipes files" if ok else
+               f"`{U(n.ast.targets[0])}` is built from `{U(a)}`, which an inner statement re-binds (e.g. `{ov} = join_key(cwd, name)`): every recipe after "
+               "the first records the previous recipe's key as its recipes file", n.ast, m, key=f"file-key:{U(n.ast.targets[0])}")
